@@ -226,6 +226,7 @@ pub struct World {
     pub known: Vec<String>,
     pub states_seen: BTreeSet<u64>,
     pub ext: crate::oracles::OracleState,
+    pub idgen_ctx: Arc<CryptoCtx>,
 }
 
 pub type VResult<T> = Result<T, Violation>;
@@ -314,6 +315,7 @@ impl World {
             known: vec![],
             states_seen: BTreeSet::new(),
             ext: Default::default(),
+            idgen_ctx: CryptoCtx::new(9999, mix(&[seed, 0x1d6e])),
             cfg,
         };
         for i in 0..w.cfg.n_parties {
@@ -399,6 +401,14 @@ impl World {
     pub fn csp(&self, p: usize) -> crypto::SimSuite {
         self.parties[p]
             .crypto
+            .cipher_suite_provider(self.suite)
+            .expect("suite")
+    }
+
+    /// key generation for identity changes draws from a world-level source, not from the party's own
+    /// crypto PRNG (so a twin of the party stays in lock-step)
+    pub fn idgen_suite(&self) -> crypto::SimSuite {
+        SimCrypto::new(self.cfg.providers[0], self.idgen_ctx.clone())
             .cipher_suite_provider(self.suite)
             .expect("suite")
     }
@@ -786,7 +796,7 @@ impl World {
         let aad = vec![0xA5u8; spec.aad_len as usize];
         let now = self.now();
         let new_id = if spec.new_identity {
-            let csp = self.csp(p);
+            let csp = self.idgen_suite();
             match csp.signature_key_generate() {
                 Ok((sk, pk)) => Some((
                     sk,
@@ -805,8 +815,9 @@ impl World {
         crypto::rec_set_phase(self.step_no as u64);
         let cached_refs: Vec<u64> = self.parties[p].mems[g].cached.iter().copied().collect();
         let spec2 = spec.clone();
-        let mut group = self.parties[p].mems[g].group.take().unwrap();
-        let res = guarded(&prop, "commit", || {
+        let res = crate::oracles::lib_call(self, p, Some(g), "commit", |w| {
+          let mut group = w.parties[p].mems[g].group.take().unwrap();
+          let res = guarded(&prop, "commit", || {
             let mut b = group.commit_builder();
             for kp in &add_kps {
                 b = b.add_member(MlsMessage::from_bytes(kp)?)?;
@@ -852,8 +863,10 @@ impl World {
             } else {
                 b.build().map(|o| (o, None))
             }
+          });
+          w.parties[p].mems[g].group = Some(group);
+          res
         });
-        self.parties[p].mems[g].group = Some(group);
         crate::oracles::clear_modifiers();
         let res = res?;
         self.stats.op("commit");
@@ -950,6 +963,7 @@ impl World {
             let gen = self.parties[q].generation + 1;
             let mut np = self.make_party(q, gen)?;
             std::mem::swap(&mut np.mems, &mut self.parties[q].mems);
+            *np.pskstore.map.lock().unwrap() = self.parties[q].pskstore.map.lock().unwrap().clone();
             // keep removed objects of the old device alive inside mems (C02)
             self.parties[q] = np;
             self.mem(q, g).status = Status::Never;
@@ -1011,7 +1025,7 @@ impl World {
         let pre = crate::oracles::before_op(self, p, g, "propose")?;
         crypto::rec_set_phase(self.step_no as u64);
         let new_id = if let PropSpec::Update { new_identity: true } = spec {
-            let csp = self.csp(p);
+            let csp = self.idgen_suite();
             csp.signature_key_generate().ok().map(|(sk, pk)| {
                 (
                     sk,
@@ -1024,9 +1038,10 @@ impl World {
         } else {
             None
         };
-        let mut group = self.parties[p].mems[g].group.take().unwrap();
         let spec2 = spec.clone();
-        let res = guarded(&prop, "propose", || match &spec2 {
+        let res = crate::oracles::lib_call(self, p, Some(g), "propose", |w| {
+          let mut group = w.parties[p].mems[g].group.take().unwrap();
+          let res = guarded(&prop, "propose", || match &spec2 {
             PropSpec::Add { .. } => {
                 group.propose_add(MlsMessage::from_bytes(kp_bytes.as_ref().unwrap())?, vec![])
             }
@@ -1061,8 +1076,10 @@ impl World {
                 Some(f) => f(&mut group),
                 None => Err(MlsError::UnexpectedMessageType),
             },
+          });
+          w.parties[p].mems[g].group = Some(group);
+          res
         });
-        self.parties[p].mems[g].group = Some(group);
         let res = res?;
         self.stats.op("propose");
         match res {
@@ -1204,6 +1221,16 @@ impl World {
         bytes: &[u8],
         what: &str,
     ) -> VResult<Result<ReceivedMessage, MlsError>> {
+        crate::oracles::lib_call(self, p, Some(g), what, |w| w.process_raw(p, g, bytes, what))
+    }
+
+    fn process_raw(
+        &mut self,
+        p: usize,
+        g: usize,
+        bytes: &[u8],
+        what: &str,
+    ) -> VResult<Result<ReceivedMessage, MlsError>> {
         let prop = self.cfg.property.clone();
         let now = self.now();
         crypto::rec_set_phase(self.step_no as u64);
@@ -1251,14 +1278,23 @@ impl World {
             }
         }
         let own = msg.sender == p && !msg.external;
+        if own {
+            // a commit built with build_detached is applied from the detached secrets
+            if let Some(k) = self.parties[p].mems[g].detached.iter().position(|(c, _)| *c == cid) {
+                return crate::oracles::do_apply_detached(self, p, g, k as u64);
+            }
+        }
         let has_pending = self.parties[p].mems[g].pending == Some(cid);
         let pre = crate::oracles::before_op(self, p, g, "process_commit")?;
         let expect = crate::oracles::expect_commit(self, p, g, cid);
         let res: Result<mls_rs::group::CommitMessageDescription, MlsError> = if own && has_pending && own_apply {
-            let mut group = self.parties[p].mems[g].group.take().unwrap();
             crypto::rec_set_phase(self.step_no as u64);
-            let r = guarded(&prop, "apply_pending_commit", || group.apply_pending_commit());
-            self.parties[p].mems[g].group = Some(group);
+            let r = crate::oracles::lib_call(self, p, Some(g), "apply_pending_commit", |w| {
+                let mut group = w.parties[p].mems[g].group.take().unwrap();
+                let r = guarded(&prop, "apply_pending_commit", || group.apply_pending_commit());
+                w.parties[p].mems[g].group = Some(group);
+                r
+            });
             self.stats.op("apply_pending_commit");
             r?
         } else {
@@ -1395,13 +1431,15 @@ impl World {
         let now = self.now();
         crypto::rec_set_phase(self.step_no as u64);
         let pre = crate::oracles::before_join(self, p, g)?;
-        let r = guarded(&prop, "join_group", || {
-            let w = MlsMessage::from_bytes(&wb)?;
-            let tree = match &oob {
-                Some(t) => Some(mls_rs::group::ExportedTree::from_bytes(t)?),
-                None => None,
-            };
-            client.join_group(tree, &w, Some(now))
+        let r = crate::oracles::lib_call(self, p, Some(g), "join_group", |_w| {
+            guarded(&prop, "join_group", || {
+                let w = MlsMessage::from_bytes(&wb)?;
+                let tree = match &oob {
+                    Some(t) => Some(mls_rs::group::ExportedTree::from_bytes(t)?),
+                    None => None,
+                };
+                client.join_group(tree, &w, Some(now))
+            })
         })?;
         self.stats.op("join");
         match r {
@@ -1606,11 +1644,14 @@ impl World {
         let aad = r.bytes(aad_len as usize);
         let pre = crate::oracles::before_op(self, p, g, "send_app")?;
         crypto::rec_set_phase(self.step_no as u64);
-        let mut group = self.parties[p].mems[g].group.take().unwrap();
-        let res = guarded(&prop, "encrypt_application_message", || {
-            group.encrypt_application_message(&payload, aad.clone())
+        let res = crate::oracles::lib_call(self, p, Some(g), "encrypt_application_message", |w| {
+            let mut group = w.parties[p].mems[g].group.take().unwrap();
+            let res = guarded(&prop, "encrypt_application_message", || {
+                group.encrypt_application_message(&payload, aad.clone())
+            });
+            w.parties[p].mems[g].group = Some(group);
+            res
         });
-        self.parties[p].mems[g].group = Some(group);
         let res = res?;
         self.stats.op("send_app");
         match res {
@@ -1687,9 +1728,12 @@ impl World {
         }
         let prop = self.cfg.property.clone();
         let pre = crate::oracles::before_op(self, p, g, "write")?;
-        let mut group = self.parties[p].mems[g].group.take().unwrap();
-        let res = guarded(&prop, "write_to_storage", || group.write_to_storage());
-        self.parties[p].mems[g].group = Some(group);
+        let res = crate::oracles::lib_call(self, p, Some(g), "write_to_storage", |w| {
+            let mut group = w.parties[p].mems[g].group.take().unwrap();
+            let res = guarded(&prop, "write_to_storage", || group.write_to_storage());
+            w.parties[p].mems[g].group = Some(group);
+            res
+        });
         let res = res?;
         self.stats.op("write");
         match res {
@@ -1744,6 +1788,7 @@ impl World {
             self.stats.probe("crash-with-unwritten-sends");
         }
         self.ext.rolled_back.extend(rolled);
+        self.ext.twins.retain(|(q, _), _| *q != p);
         self.parties[p].crashed = true;
         self.stats.fault("P-CRASH");
         self.ev(format!("crash P{p}"));
@@ -1776,7 +1821,9 @@ impl World {
             &party.signer,
             self.suite,
         );
-        let r = guarded(&prop, "load_group", || client.load_group(&gid))?;
+        let r = crate::oracles::lib_call(self, p, Some(g), "load_group", |_w| {
+            guarded(&prop, "load_group", || client.load_group(&gid))
+        })?;
         self.parties[p].client = client;
         self.parties[p].crashed = false;
         self.stats.op("reload");
@@ -1845,7 +1892,10 @@ impl World {
             c.retain(|x| *x != cid);
         }
         let pre = crate::oracles::before_op(self, p, g, "clear_pending")?;
-        self.parties[p].mems[g].group.as_mut().unwrap().clear_pending_commit();
+        let _ = crate::oracles::lib_call(self, p, Some(g), "clear_pending_commit", |w| {
+            w.parties[p].mems[g].group.as_mut().unwrap().clear_pending_commit();
+            Ok(Ok(()))
+        })?;
         self.parties[p].mems[g].pending = None;
         self.stats.op("clear_pending");
         self.ev(format!("clear-pending P{p} g{g} id={cid}"));
@@ -1917,6 +1967,7 @@ impl World {
             let gen = self.parties[p].generation + 1;
             let mut np = self.make_party(p, gen)?;
             std::mem::swap(&mut np.mems, &mut self.parties[p].mems);
+            *np.pskstore.map.lock().unwrap() = self.parties[p].pskstore.map.lock().unwrap().clone();
             np.crashed = self.parties[p].crashed;
             self.parties[p] = np;
             self.mem(p, g).durable = Default::default();
@@ -1925,7 +1976,7 @@ impl World {
         let client = self.parties[p].client.clone();
         let now = self.now();
         crypto::rec_set_phase(self.step_no as u64);
-        let r = guarded(&prop, "external_commit", || {
+        let r = crate::oracles::lib_call(self, p, Some(g), "external_commit", |_w| guarded(&prop, "external_commit", || {
             let mut b = client.external_commit_builder()?.commit_time(now);
             if let Some(t) = &tree_bytes {
                 b = b.with_tree_data(mls_rs::group::ExportedTree::from_bytes(t)?.into_owned());
@@ -1937,7 +1988,7 @@ impl World {
                 b = b.with_external_psk(mls_rs::psk::ExternalPskId::new(vec![b'k', id]));
             }
             b.build(MlsMessage::from_bytes(&gi_bytes)?)
-        })?;
+        }))?;
         self.stats.op("ext_commit");
         match r {
             Err(e) => {
